@@ -361,7 +361,7 @@ func (e *Exec) tolerantInstr(fr *frame, ins ssa.Instruction) {
 				panic(r)
 			}
 			if v, ok := ins.(ssa.Value); ok {
-				fr.env[v] = &Opaque{fmt.Sprintf("init: %v", ins)}
+				fr.env[v] = &Opaque{What: fmt.Sprintf("init: %v", ins)}
 			}
 		}
 	}()
